@@ -47,6 +47,17 @@ impl Ctx {
     /// pick by tier
     pub fn n(&self, quick: u64, thorough: u64) -> u64 { if self.quick() { quick } else { thorough } }
 
+    /// Note the input the implementation is about to be run on, in a per-thread file of the output
+    /// directory: if the process then dies in a way `catch_unwind` cannot catch (abort on allocation
+    /// failure, stack overflow, a panic while panicking), `check` finds the candidates there and
+    /// re-runs each one alone (`--replay`) to name the failing input.
+    pub fn attempting(&self, replay: &str) {
+        thread_local! { static SLOT: std::cell::Cell<usize> = const { std::cell::Cell::new(usize::MAX) }; }
+        static NEXT_SLOT: std::sync::atomic::AtomicUsize = std::sync::atomic::AtomicUsize::new(0);
+        let slot = SLOT.with(|c| { if c.get() == usize::MAX { c.set(NEXT_SLOT.fetch_add(1, std::sync::atomic::Ordering::Relaxed)); } c.get() });
+        let _ = std::fs::write(self.outdir.join(format!("current-{slot:03}.txt")), replay);
+    }
+
     /// Record one correspondence case: the model must produce `output` for op `name` on `input`.
     pub fn case(&self, name: &str, input: &Tree, output: &Tree) {
         use std::sync::atomic::Ordering::Relaxed;
